@@ -112,7 +112,7 @@ pub fn glob_corpus(tier: &str, seed: u64, repo: &Path) -> Vec<String> {
     }
     for s in ["*.rs", "*.c", "foo.", "*.", "a.", "**/foo.", "**/*.rs", "src/**", "src/**/*.rs", "*.d/conf", "**/*.d/conf",
               "a*", "ab*", "a/**", "a/b/**", "*.a/b", "Makefile", "**/Makefile", "*.tar.gz", "foo/*", "*/foo", "**/a/b",
-              "[a-c]x", "{*.a,*.b}", "a?b", "*a", "**/.git", ".*", "*.[ch]"] {
+              "[a-c]x", "{*.a,*.b}", "{a/**,b}", "{b,a/**}", "{**/a,b}", "{a,b/**/c}", "{a*,?b}", "{a/**,b/**}", "{*/a,**}", "a?b", "*a", "**/.git", ".*", "*.[ch]"] {
         out.push(s.to_string());
     }
     let mut seen = std::collections::HashSet::new();
@@ -222,6 +222,26 @@ fn witness_bytes(v: &Verdict) -> Option<Vec<u8>> {
 }
 
 // ---------------------------------------------------------------- reference (simple subset)
+
+/// `{x,y,..}` spanning the whole glob, one level, no escapes, classes or empty
+/// branches: the branches; None otherwise.
+fn whole_alternation(glob: &str) -> Option<Vec<String>> {
+    let b = glob.as_bytes();
+    if b.len() < 5 || b[0] != b'{' || b[b.len() - 1] != b'}' {
+        return None;
+    }
+    let inner = &glob[1..glob.len() - 1];
+    if inner.contains(|c| c == '{' || c == '}' || c == '\\' || c == '[' || c == ']') {
+        return None;
+    }
+    let parts: Vec<String> = inner.split(',').map(|x| x.to_string()).collect();
+    // a branch that BEGINS with `**` is left out: the documented positions of a
+    // recursive wildcard are relative to the pattern, not to a branch
+    if parts.len() < 2 || parts.iter().any(|x| x.is_empty() || x.starts_with("**")) {
+        return None;
+    }
+    Some(parts)
+}
 
 /// Reference compilation of a glob over the simple token subset, written from
 /// the documented syntax; None if the glob uses anything else.
@@ -461,6 +481,43 @@ pub fn run_all(ctx: &mut Ctx, z3: &mut Z3, tier: &str, seed: u64, repo: &Path, s
                                 push(ctx, "G-MEAN", &program, st, format!("glob matcher says {}, documented meaning says {} (regex {})", real, want, glob.regex()), Some(h), false);
                             }
                             Verdict::Unknown(e) => push(ctx, "G-MEAN", &program, "inconclusive", e, None, false),
+                        }
+                    }
+                }
+            }
+
+            // ---- G-ALT: a glob that is one whole alternation {x,y,..} means
+            // the union of its branches compiled as globs of their own
+            if ctx.want("G-MEAN") {
+                if let Some(branches) = whole_alternation(g) {
+                    let mut hs = vec![];
+                    let mut ms = vec![];
+                    for br in &branches {
+                        if let Ok(bg) = build(br, &o) {
+                            if let Ok(h) = regex_hir(bg.regex()) {
+                                hs.push(h);
+                                ms.push(bg.compile_matcher());
+                            }
+                        }
+                    }
+                    if hs.len() == branches.len() {
+                        if let Ok(un) = Nfa::from_hir(&Hir::alternation(hs)) {
+                            let mut enc = Enc::new(l);
+                            let a = enc.sim(&nfa, "0", "n", None);
+                            let b = enc.sim(&un, "0", "n", None);
+                            enc.assert(&format!("(xor {} {})", Enc::any(&a.m), Enc::any(&b.m)));
+                            ctx.queries += 1;
+                            match z3.check(&enc) {
+                                Verdict::Unsat => push(ctx, "G-MEAN", &program, "discharged", "alternation = union of its branches".into(), None, nonvac),
+                                v @ Verdict::Sat { .. } => {
+                                    let h = witness_bytes(&v).unwrap();
+                                    let real = matcher.is_match(path_of(&h));
+                                    let want = ms.iter().any(|m| m.is_match(path_of(&h)));
+                                    let st = if real != want { "failed" } else { "inconclusive" };
+                                    push(ctx, "G-MEAN", &program, st, format!("alternation says {}, its branches {:?} as globs of their own say {} (regex {})", real, branches, want, glob.regex()), Some(h), false);
+                                }
+                                Verdict::Unknown(e) => push(ctx, "G-MEAN", &program, "inconclusive", e, None, false),
+                            }
                         }
                     }
                 }
